@@ -99,9 +99,10 @@ Definition node_at (st : state) (p : path) : inode :=
 Definition put_idx (st : state) (p : path) (n : inode) (ops : list iop) : state :=
   notify (with_tree st (set_node (st_tree st) p n)) p ops.
 
-(* node.InsertOrderedChild(..) + `_indexingPresent = true`; p exists *)
+(* node.InsertOrderedChild(..) + `_indexingPresent = true`; p is a node at or below the session's own
+   node (every caller starts from _sessionDir) *)
 Definition prim_insert_ordered (st : state) (s : nat) (p : path) (b : bspec) (optname : option name) : state :=
-  if has_node (st_tree st) p then
+  if own s p && has_node (st_tree st) p then
     let '(n', nm, ops) := insert_ordered_child (kids_of (st_tree st) p) (node_at st p) b optname in
     if has_node (st_tree st) (p ++ [nm]) then st
     else
@@ -109,9 +110,9 @@ Definition prim_insert_ordered (st : state) (s : nat) (p : path) (b : bspec) (op
       set_ipres (notify (with_tree st t1) p ops) s
   else st.
 
-(* ReorderDataCallback: indexNode = parent p, child c looked up by name *)
+(* ReorderDataCallback: indexNode = parent p (at or below the session's own node), child c looked up by name *)
 Definition prim_reorder (cfg : config) (st : state) (s : nat) (p : path) (c : name) (b : bspec) : state :=
-  if has_node (st_tree st) p && has_node (st_tree st) (p ++ [c]) then
+  if own s p && has_node (st_tree st) p && has_node (st_tree st) (p ++ [c]) then
     let '(n', ops) := reorder_child (kids_of (st_tree st) p) (node_at st p) c b in
     let st1 := put_idx st p n' ops in
     if fix_reorder_ipres cfg then set_ipres st1 s else st1
